@@ -502,18 +502,18 @@ class Frame:
     def st_For(self, s):
         items = self.unrollable(s.iter)
         if items is not None and not any(isinstance(x, (ast.Break, ast.Continue)) for b in s.body for x in ast.walk(b)):
-            src = s.iter.args[0] if isinstance(s.iter, ast.Call) and isinstance(s.iter.func, ast.Name) and s.iter.func.id == 'enumerate' else s.iter
-            elem_t = s.target.elts[1] if isinstance(s.target, ast.Tuple) and src is not s.iter and len(s.target.elts) == 2 else s.target
+            pairs = _alias_pairs(s.target, s.iter)
             for i, e in enumerate(items):
                 self.assign(s.target, e, s)
                 out = self.block(s.body)
                 # the loop variable aliases the list element: in-place updates through it are updates of the element
-                if isinstance(elem_t, ast.Name) and elem_t.id in self.mutated and self.is_place(src):
-                    cur = self.place_get(src)
-                    if cur[0] == 'list' and i < len(cur[1]):
-                        lst = list(cur[1])
-                        lst[i] = self.env[elem_t.id]
-                        self.place_set(src, ('list', tuple(lst)))
+                for elem_t, src in pairs:
+                    if elem_t.id in self.mutated and self.is_place(src):
+                        cur = self.place_get(src)
+                        if cur[0] == 'list' and i < len(cur[1]):
+                            lst = list(cur[1])
+                            lst[i] = self.env[elem_t.id]
+                            self.place_set(src, ('list', tuple(lst)))
                 if out != FALL:
                     return out
             if s.orelse:
@@ -1244,6 +1244,18 @@ def _read_before_write(body, targets=()):
                     if x.func.value.id not in written:
                         live.add(x.func.value.id)
     return live
+
+
+def _alias_pairs(target, it):
+    """(loop-variable Name node, iterated expression) pairs: `for x in X`, `for i, x in enumerate(X)`, `for a, b in zip(A, B)`"""
+    if isinstance(it, ast.Call) and isinstance(it.func, ast.Name) and not it.keywords:
+        if it.func.id == 'enumerate' and len(it.args) == 1 and isinstance(target, ast.Tuple) and len(target.elts) == 2:
+            return _alias_pairs(target.elts[1], it.args[0])
+        if it.func.id == 'zip' and isinstance(target, ast.Tuple) and len(target.elts) == len(it.args):
+            return [p for t_, a in zip(target.elts, it.args) for p in _alias_pairs(t_, a)]
+    if isinstance(target, ast.Name):
+        return [(target, it)]
+    return []
 
 
 def _assigned_names(body):
